@@ -23,7 +23,10 @@ def gen_cases(ctx):
 
 
 def run(ctx):
-    if not srv.prepare(ctx):
+    if not srv.prepare(ctx, ['FfiTables.v', 'TlsAuthz.v', 'ReaderLoop.v']):
+        return
+    if ctx.replay and 'authz_sequences' in ctx.replay:
+        srv.replay_authz_sequences(ctx, True)
         return
     if ctx.replay and 'stream_cases' in ctx.replay:
         srv.replay_streams(ctx)
@@ -60,6 +63,19 @@ def run(ctx):
         calls['sessions-with-calls'] += bool(log)
         calls['handler-calls:read-runs'] += sum(1 for e in log if e[:2] in ('rc', 'rd', 'rh', 'ri'))
         calls['handler-calls:write-single'] += sum(1 for e in log if e[:3] in ('wsc', 'wsr'))
+    if not ctx.replay:
+        # C-ABI / Rust TLS servers with authorization: a request the policy denies must not reach a write handler
+        # (client=OK for a write means the write handler ran), a permitted one must; a session whose certificate has
+        # no usable role gets nothing served
+        seqs = srv.gen_authz_sequences(ctx.rng, ctx.quick())
+        out, res = srv.run_authz_sequences(ctx, seqs)
+        badq = [(sq, o, p) for sq, o, per in zip(seqs, out, res) for p in per if not p['ok_effect']]
+        ctx.oblige('tls-authorization:handlers-run-only-for-permitted-requests', not badq, f'{len(badq)} sessions; first: {badq[0][2] if badq else ""}'[:300])
+        for sq, o, p in badq[:2]:
+            ctx.violation(f'handler-calls.tls-authorization.{sq[0]}-server',
+                          f'TLS + authorization, {sq[0]} server, policy {sq[1]}: session #{p["session"]} (role certificate {p["role"]}, {p["op"]}) got `{p["got"]}`: a handler ran for a request that is not permitted (or did not run for a permitted one); required {p["want"]}',
+                          {'authz_sequences': [list(sq[:3]) + [[list(x) for x in sq[3]]]], 'harness_line': 'ffi_authz: ' + srv.authz_line(sq), 'impl': o, 'required': p['want']})
+        calls['tls-authorization-sessions'] = sum(len(s[3]) for s in seqs)
     if not ctx.replay:
         r = ctx.rng
         n = 240 if ctx.quick() else 2400
